@@ -15,7 +15,10 @@ timeouts injected, callers cancelled / timed out with the connection staying up 
 (whatever task the ended operation left behind keeps being scheduled and observed), connection lost +
 re-opened + operation retried while others are queued, two-connection histories (a real Driver built with
 channel_lock=True commandeers / is commandeered by a Driver built with or without it, then the callers
-run on it); every observed trace is replayed through the
+run on it), interactions ended early by an interaction_complete_pattern before the prompt was read and
+send_input_and_read ended by its read_duration over a busy device, each with other callers queued / arriving
+(threads the code under test starts are scheduled and observed like the tasks it leaves behind; blocking waits
+on them are park points, time is virtual); every observed trace is replayed through the
 model's executable step function (vm_compute, Lock.check_run; re-open runs also Lock.oreplay) and judged
 by an independent oracle."""
 import json
@@ -59,6 +62,19 @@ def caller_spec(kind, c, variant=0, chunk=0):
         ans = "y%s" % tag
         return ({"op": "send_inputs_interact", "events": [[cmd, "[confirm-%s]" % tag, False], [ans, "router1#", False]]},
                 {cmd: "Clear %s [confirm-%s]" % (tag, tag), ans: "cleared-%s" % tag})
+    if kind == "interact_early":
+        # the device refuses the command: the interaction ends on a completion pattern.  With reads of a few bytes the
+        # pattern is complete before the rest of the message and the prompt have been read: the operation ends there
+        # (by design) and leaves them on the channel for whoever reads next
+        cmd = "clear %s" % tag
+        ans = "y%s" % tag
+        return ({"op": "send_inputs_interact", "events": [[cmd, "[confirm-%s]" % tag, False], [ans, "router1#", False]],
+                 "complete": ["Invalid-%s" % tag]},
+                {cmd: "%% Invalid-%s input detected at marker" % tag})
+    if kind == "read_timed":
+        # a command that keeps the device busy (output, no prompt): the operation ends because read_duration is up
+        cmd = "tail %s" % tag
+        return {"op": "send_input_and_read", "cmd": cmd, "duration": 2.0}, {cmd: "log-%s line1" % tag}
     raise ValueError(kind)
 
 
@@ -68,8 +84,11 @@ def make_scenario(stack, lock, kinds, chunk=0, faults=(), timeouts=None, no_term
         spec, outs = caller_spec(k, c, variant, chunk)
         callers.append(spec)
         outputs.update(outs)
+    faults = list(faults) + [{"caller": c, "kind": "duration"} for c, k in enumerate(kinds) if k == "read_timed"]
     scn = {"stack": stack, "lock": lock, "chunk": chunk, "host": "router1", "outputs": outputs, "callers": callers,
            "faults": list(faults)}
+    if "read_timed" in kinds:
+        scn["busy"] = [sp["cmd"] for sp, k in zip(callers, kinds) if k == "read_timed"]
     if timeouts:
         scn["timeouts"] = {str(k): v for k, v in timeouts.items()}
     if no_terminate:
@@ -85,16 +104,57 @@ _SOLO = {}
 def solo(scn, c):
     """caller c alone on a fresh device: its script (what it writes / reads) and its result"""
     from . import c19_impl as I
-    key = json.dumps([scn["stack"], scn["lock"], scn["chunk"], scn["callers"][c], scn["outputs"]], sort_keys=True)
+    # (a read_duration that runs out belongs to the operation itself: alone it runs out the same way)
+    own = [{"caller": 0, "kind": "duration"} for f in scn.get("faults", []) if f["kind"] == "duration" and f["caller"] == c]
+    key = json.dumps([scn["stack"], scn["lock"], scn["chunk"], scn["callers"][c], scn["outputs"], own, scn.get("busy")], sort_keys=True)
     if key not in _SOLO:
         # (always on a device that answers: a silent device is a failure of the scenario, not of the caller)
         s1 = {"stack": scn["stack"], "lock": scn["lock"], "chunk": scn["chunk"], "host": scn.get("host", "router1"),
-              "outputs": scn["outputs"], "callers": [scn["callers"][c]], "faults": []}
+              "outputs": scn["outputs"], "callers": [scn["callers"][c]], "faults": own, "busy": scn.get("busy", [])}
         obs = I.run_scenario(s1, [])
         script = [(e[0], e[2]) for e in obs["events"] if e[0] in ("w", "r")]
         _SOLO[key] = {"script": script, "result": obs["results"]["0"], "ok": obs["verdict"] is None and not obs["wedged"],
                       "nio": len(script)}
     return _SOLO[key]
+
+
+_SEQ = {}
+
+
+def sequential(scn, order):
+    """the callers one after the other in `order` on a fresh device (no concurrency): per caller its script and result"""
+    from . import c19_impl as I
+    key = json.dumps([scn, list(order)], sort_keys=True)
+    if key not in _SEQ:
+        obs = I.run_scenario(scn, [], order=list(order))
+        _SEQ[key] = {"ok": obs["verdict"] is None and not obs["wedged"], "results": obs["results"],
+                     "scripts": {c: [(e[0], e[2]) for e in obs["events"] if e[0] in ("w", "r") and e[1] == c]
+                                 for c in range(len(scn["callers"]))}}
+    return _SEQ[key]
+
+
+def real_faults(scn):
+    """injected failures (a read_duration that runs out is how the operation is meant to end, not a failure)"""
+    return [f for f in scn.get("faults", []) if f["kind"] != "duration"]
+
+
+def after_leftover(scn, obs):
+    """callers that took the lock after an operation that by design may end before the prompt and leave output on the
+    channel (an interaction ended by a completion pattern): they find what it left, their reference is the sequential
+    run in the order of acquisition, not their solo run"""
+    acq = {}
+    for i, e in enumerate(obs["events"]):
+        if e[0] == "acq" and e[1] not in acq:
+            acq[e[1]] = i
+    return {c for c in acq for d in acq if d != c and scn["callers"][d].get("complete") and acq[d] < acq[c]}
+
+
+def acquisition_order(scn, obs):
+    order = []
+    for e in obs["events"]:
+        if e[0] == "acq" and e[1] not in order:
+            order.append(e[1])
+    return order + [c for c in range(len(scn["callers"])) if c not in order]
 
 
 # --------------------------------------------------------------------------------------------------
@@ -141,7 +201,7 @@ def oracle(scn, obs):
         bad.append(("lock-creation", "channel_lock=%s but the channel created %s" % (scn["lock"], obs["lock_created"])))
     if not scn["lock"]:
         return bad
-    faulty = bool(scn.get("faults"))
+    faulty = bool(real_faults(scn))
     if obs["verdict"] == "deadlock":
         bad.append(("deadlock", "a caller waits for the channel lock and nobody who could release it is left "
                                 "(lock held at the end: %s)" % (obs["lock_free_at_end"] is False)))
@@ -208,6 +268,18 @@ def oracle(scn, obs):
         elif strict[c] == "prefix":
             if mine != s["script"][:len(mine)]:
                 bad.append(("wrong-wire", "failing caller %d's wire events are not a prefix of its solo operation" % c))
+        elif strict[c] == "seq":
+            order = acquisition_order(scn, obs)
+            ref = sequential(scn, order)
+            if not ref["ok"]:
+                bad.append(("no-reference", "the callers one after the other in the order %s do not all end" % order))
+            else:
+                if res != ref["results"][str(c)]:
+                    bad.append(("wrong-result", "caller %d got %r, in the sequential run in the order of acquisition %s it gets %r"
+                                % (c, res, order, ref["results"][str(c)])))
+                if mine != ref["scripts"][c]:
+                    bad.append(("wrong-wire", "caller %d's wire events differ from those of the sequential run in the order of acquisition %s"
+                                % (c, order)))
     # a connection built with channel_lock=True serialises its callers for its whole life: whatever happened to
     # it before the callers came (it commandeered another connection / was commandeered) and whatever happens
     # while they run (failures, re-opens), its channel refers to a lock object of the right kind
@@ -307,13 +379,17 @@ def strict_callers(scn, obs):
                 out[c] = "free"
         return out
     ff = first_fault_index(ev)
-    clean = all(f["kind"] == "boom" and f.get("at") == 0 and not f.get("sticky", True) for f in scn.get("faults", []))
+    clean = all(f["kind"] == "boom" and f.get("at") == 0 and not f.get("sticky", True) for f in real_faults(scn))
     ended = {e[1]: i for i, e in enumerate(ev) if e[0] == "end"}
+    left = after_leftover(scn, obs)
     out = {}
     for c in range(len(scn["callers"])):
-        hit = any(f["caller"] == c for f in scn.get("faults", []))
+        hit = any(f["caller"] == c for f in real_faults(scn))
         before = ff is None or (c in ended and ended[c] < ff)
         out[c] = "full" if (before or (clean and not hit)) else ("prefix" if (hit and scn.get("silent_after") is None) else "free")
+        if c in left:
+            # (what the earlier operation left on the channel is read by this one)
+            out[c] = "seq" if not real_faults(scn) else "free"
     return out
 
 
@@ -323,7 +399,7 @@ def case_term(scn, obs):
     att = attempt_of(obs["events"])
     rt = retried(obs)
     for c in range(len(scn["callers"])):
-        if strict[c] == "free" and c not in rt:
+        if strict[c] in ("free", "seq") and c not in rt:
             scripts.append([(e[0], e[2]) for e in obs["events"] if e[0] in ("w", "r") and e[1] == c])
         else:
             scripts.append(solo(scn, c)["script"])       # (a failed first attempt: the model checks the prefix)
@@ -474,6 +550,10 @@ def reopen_variants(scn, rng, every):
     allp, _ = io_points(scn, 0)
     return [({"faults": [{"caller": 0, "at": k, "kind": "raise"}]}, "reopen@%d" % k)
             for k in (allp if every else [rng.choice(allp[1:])])]
+
+
+def every9(thorough, tie_broken):
+    return thorough or tie_broken
 
 
 def with_retry(scn, c=0):
@@ -665,6 +745,32 @@ def run(rep):
         upd, label = rng8.choice(reopen_variants(scn, rng8, False))
         do_scenario(with_faults(scn, upd), "commandeer+reopen", 200 * effort, 20 * effort)
     rng = rng_main
+    # F9: an interaction that ends early on an interaction_complete_pattern BEFORE the device's prompt has been read (reads of a
+    # few bytes: the rest of the refusal message and the prompt are still to come) with a second caller waiting for / arriving at
+    # the lock: whatever the operation does after the pattern it does inside its lock section; the later callers are judged
+    # against the sequential run in the order of acquisition (they read what the interaction left behind).
+    # F10: send_input_and_read that ends because read_duration runs out over a busy device (output, no prompt: a read is
+    # pending when the time is up), followed by / queued with another operation: nothing of the ended operation -- no reader
+    # thread or task it started -- reads the channel afterwards.
+    rng9 = random.Random("C19-early-duration-%s" % rep.seed)      # (own stream: derived from the seed only)
+    for stack in stacks:
+        for special, label, chunks in (("interact_early", "early-end", (5, 7)), ("read_timed", "duration", (0, 7))):
+            for b in OPS + ([special] if every9(thorough, tie_broken) else []):
+                scn = make_scenario(stack, True, [special, b], chunk=rng9.choice(chunks), variant=rng9.randrange(2))
+                do_scenario(scn, label, 600 * effort, 40 * effort)
+            for a in (OPS if every9(thorough, tie_broken) else [rng9.choice(OPS)]):
+                scn = make_scenario(stack, True, [a, special], chunk=rng9.choice(chunks), variant=rng9.randrange(2))
+                do_scenario(scn, label, 600 * effort, 40 * effort)
+            for _ in range(3 if every9(thorough, tie_broken) else 1):
+                kinds = [rng9.choice(OPS), special, rng9.choice(OPS + ["interact_early", "read_timed"])]
+                rng9.shuffle(kinds)
+                scn = make_scenario(stack, True, kinds, chunk=rng9.choice(chunks[-1:]), variant=1)
+                do_scenario(scn, label, (300 if thorough else 100) * effort, 30 * effort)
+            if special == "interact_early":
+                # (the generator's claim: alone, the interaction ends before the prompt has been read)
+                so = solo(make_scenario(stack, True, [special], chunk=chunks[0]), 0)
+                dist["early_end_before_prompt"] = dist.get("early_end_before_prompt", 0) + int(
+                    so["ok"] and so["result"][0] == "tuple" and b"router1#" not in bytes.fromhex(so["result"][1]))
     # F6: an operation ended from outside with the connection staying up (task cancelled / NO_TERMINATE timeout) at
     # a point of the operation, the other callers go on; output in several reads.  The observer (transport events
     # only by the lock holder) runs over the whole log: whatever a failed operation leaves behind (a shielded /
@@ -765,6 +871,10 @@ def run(rep):
                 "(own marker per caller) x read chunking x failure (none | k-th transport call of a caller raises, sticky or clean | "
                 "timeout at a parked read/write, closing or NO_TERMINATE | timeout while waiting for the lock | asyncio task cancelled at a "
                 "read / in the lock queue | connection lost + re-open (channel.close, transport.open, channel.open) and retry by the failing caller) "
+                "x operation ending before the prompt (send_inputs_interact with interaction_complete_patterns over a device that refuses the command, reads of "
+                "5/7 bytes so that the pattern is complete before the rest of the message and the prompt are read | send_input_and_read with read_duration "
+                "over a busy device -- output, no prompt --: the duration runs out at a read that is pending on the silent device) as first / second / "
+                "middle caller with every other operation "
                 "x history of the connection (built and opened | two real Drivers: B built with channel_lock=True commandeers A built with / without "
                 "it and the callers use B, or the callers use the commandeered A built with it; also with an early end / loss + re-open + retry); "
                 "cancellation / NO_TERMINATE timeout / loss at every point of the operation in the thorough tier or when a tie is broken, at sampled "
@@ -872,12 +982,27 @@ MANIFEST = {
             "channel locking, then 2-3 concurrent callers use B — or the commandeered A where A was built with the lock —, also with an operation ended "
             "early / the connection lost, re-opened and the operation retried; every trace is replayed "
             "through the model's step function by vm_compute (check_run, proved sound; a retry is a further caller of the model; re-open runs also through "
-            "layer D's oreplay) and judged by an independent oracle (no interleaving on the wire — per operation, a retry is its own operation —, each "
+            "layer D's oreplay); operations that END BEFORE THE PROMPT with other callers queued / arriving: send_inputs_interact with "
+            "interaction_complete_patterns over a device that refuses the command, read in chunks so that the pattern is complete before the rest of "
+            "the message and the prompt are read (later callers are judged against the sequential run of the same callers in the order of "
+            "acquisition: they read what the interaction left), and send_input_and_read whose read_duration runs out over a busy device (output, no "
+            "prompt; virtual time: the channel modules' time.time() and the transport's read timeout are the scheduler's); a thread the code "
+            "under test starts (a reader thread) is scheduled like a caller and observed until the run ends, a blocking wait on it (Queue.get / "
+            "Event.wait / Thread.join / Future.result, timed or not) is a park point that the scheduler may let elapse when the duration is due; "
+            "every trace is judged by an independent oracle (no interleaving on the wire — per operation, a retry is its own operation —, each "
             "caller's result and wire events = its solo run, lock free at the end, no deadlock, one holder at a time over all lock objects, a connection "
             "built with channel_lock=True still refers to a lock object of the right kind when its callers start and when the run ends — it serialises "
             "its callers for its whole life, whatever it commandeered or was commandeered by —, and no "
             "transport call outside a lock section EVER: performed or still pending when the run ends, by the caller or by anything it left behind).",
-    "note": "Partial in this sense: threading.Lock / asyncio.Lock themselves, contextlib's generator protocol and the interpreter are observed, "
+    "note": "Early-ending operations: the interaction ended by a completion pattern and the read ended by its duration are paths of the translated "
+            "shapes (break / loop exit inside the lock section), their traces go through check_run like any other (the callers after an early-ended "
+            "interaction with their observed scripts, their results being the oracle's business: sequential reference run). A transport read that times "
+            "out (event rt) and an elapsed wait (event elapse) are not transport events of the model. Threads started by the code under test are, "
+            "like orphaned tasks, outside the Coq model (oracle-only). Only Queue.get / Event.wait / Thread.join / Future.result are virtualised: code "
+            "that blocks a caller's thread on another primitive (a bare Condition / Lock / select) while a thread of its own is parked makes the run "
+            "wedge (reported as harness-wedged, no verdict). The duration scenarios exist for both stacks; under asyncio a timed wait on a sub-task "
+            "(asyncio.wait_for on a shielded read) is NOT virtualised beyond the existing timeout_ops deadline jump. "
+            "Partial in this sense: threading.Lock / asyncio.Lock themselves, contextlib's generator protocol and the interpreter are observed, "
             "not proved (the instrumented lock only delegates acquire(False)/locked()/release() to the lock the channel created; which waiter "
             "gets a free lock is a scheduler choice, a superset of both lock implementations); the channel under test is an instance of a subclass of the "
             "real class whose only addition is a __setattr__ wrapping any lock object bound to channel_lock. Tasks left behind by an ended operation "
